@@ -339,7 +339,7 @@ impl Monitor for C20 {
         col.publish("determinism", &inp.prog.shape);
         // one of the two machines also sees host-side operations that must be invisible
         for _ in 0..prng.below(3) {
-            if let Some(d) = perturb(&mut a, &mut prng, &Perturb { areas: false, hooks: true, clone: true }) {
+            if let Some(d) = perturb(&mut a, &mut prng, &Perturb { areas: false, hooks: true, clone: true, decoy: 0 }) {
                 col.violation_case("determinism:neutral-operation-visible", k, d, json!(null));
                 return;
             }
